@@ -248,11 +248,45 @@ def judge_pairs(case):
                              "detail": f"{lb} ({np.dtype(dtb).name}) gives other bits after {la} ({np.dtype(dta).name}) ran in the same process than in a fresh process"})
     return {"nontrivial": True, "outcome": "ok", "violations": viol, "pairs": npairs}
 
+def judge_boundary(case):
+    """operands on the boundary of an operation's domain (exact zeros under sqrt / log / fractional powers, zero denominators ...):
+    values and gradients there may be inf or nan, but they are the SAME inf / nan on every repetition, whatever the heap looked like
+    before (blocks of the result's size are allocated, filled with 0 / 7 / -123.5 / nan and freed before each repetition)"""
+    from mc import catalog_tensor as ct, catalog_nn as cn, values
+    sg = harness.load()
+    c = case["case"]; fam = cn if "form" in c else ct
+    arrays = fam.arrays_for(c)
+    diff = [i for i in (cn.diff_idx(c, arrays) if fam is cn else range(len(arrays))) if np.asarray(arrays[i]).dtype.kind == "f"]
+    rg = [i in diff for i in range(len(arrays))]
+    digs = []
+    for fill in (0.0, 7.0, -123.5, float("nan")):
+        junk = [np.full(max(int(np.asarray(a).size), 1) * k, fill, dtype=np.float64) for a in arrays for k in (1, 2, 3)] + \
+               [np.full(max(int(np.asarray(a).size), 1), fill, dtype=np.float32) for a in arrays]
+        del junk
+        try:
+            out, ts = fam.run_lib(c, arrays, rg)
+            parts = [np.asarray(out.data)]
+            if out.requires_grad and np.asarray(out.data).dtype.kind == "f":
+                out.backward(sg.Tensor(np.asarray(values.dense_g(out.shape), dtype=out.dtype)))
+                parts += [np.asarray(ts[i].grad.data) for i in diff if ts[i].grad is not None]
+            digs.append(_dig(parts))
+        except harness.HarnessError:
+            raise
+        except Exception as e:
+            digs.append("raise:" + type(e).__name__)
+    viol = []
+    if len(set(digs)) != 1:
+        viol.append({"kind": f"{c['op']}:boundary-result-depends-on-heap", "detail": f"{c['op']} {c.get('args')} on {c.get('pats')} operands: result / gradient bits differ between "
+                     f"repetitions that differ only in what freed memory contained ({digs})"})
+    return {"nontrivial": True, "outcome": "ok", "violations": viol}
+
 def judge(case):
     sg = harness.load()
     viol = []
     if case["kind"] == "pairs":
         return judge_pairs(case)
+    if case["kind"] == "boundary_repeat":
+        return judge_boundary(case)
     prog = case["prog"]
     if case["kind"] == "rerun":
         d = {}
@@ -287,7 +321,9 @@ def run(tier, seed):
     import synapgrad.nn.utils.data
     progs = programs(L)
     pair_cases = call_alphabet()
-    cases = [{"kind": "rerun", "prog": p} for p in progs] + [{"kind": "controlled", "prog": [l]} for l in LETTERS] + pair_cases
+    from checks import c11 as _c11
+    bcases = [{"kind": "boundary_repeat", "case": c} for c in _c11.boundary_cases()]
+    cases = [{"kind": "rerun", "prog": p} for p in progs] + [{"kind": "controlled", "prog": [l]} for l in LETTERS] + pair_cases + bcases
     r = engine.run_cases(cases, judge)
     viols = r["violations"]
     # (b) fresh interpreters: hash seeds x allocation layouts
@@ -330,7 +366,7 @@ def run(tier, seed):
                    f"process (bitwise digests of every produced array, gradient and parameter); programs of length <= {Lw} again in {len(envs)} fresh "
                    "interpreters with PYTHONHASHSEED in {0,1,2,4242,...} with and without 10^5 junk allocations (identical digest tables); a fixed "
                    "conv/pool/log_softmax forward+backward repeated 5 times, and eval-mode layer objects (BatchNorm1d/2d, Linear, Conv2d, Dropout) built once and driven forward+backward 5 times, and a seeded training program starting from fixed ndarrays through synapgrad.tensor() run 3 times; each letter under the scripted random source twice (no draw bypasses "
-                   "the generators manual_seed seeds); history independence: for every op family of both catalogues, all ordered pairs (A, B) over ~6 "
+                   "the generators manual_seed seeds); every boundary-of-domain case of C11 repeated 4 times over differently filled freed memory (same inf / nan bits each time); history independence: for every op family of both catalogues, all ordered pairs (A, B) over ~6 "
                    "near-miss configurations x 2 dtypes - B after A in one process must give the bits B gives in a fresh process; states = programs, transitions = letter executions"}
     return {"level": "model_checking", "violations": viols, "coverage": cov,
             "assumptions": ["cross-machine reproducibility (BLAS builds) is out of reach in this sandbox"]}
